@@ -160,16 +160,19 @@ def St.assignArr (s : St) (h : Nat) (src : Option Nat) : St × RRet :=
 def capOf (len : Nat) : Nat := ((len + 63) / 128 + 1) * 128 - 64
 
 /-- the private copy a detach hands out: object `o` gives up one reference (`clear`: its elements were moved,
-    not copied), a new buffer with the elements and one reference is appended and stored in handle `h` -/
-def St.relocate (s : St) (h o : Nat) (newcap : Nat) (clear : Bool) : St :=
+    not copied), a new buffer with the elements `els` and one reference is appended and stored in handle `h` -/
+def St.relocateWith (s : St) (h o : Nat) (newcap : Nat) (clear : Bool) (els : List Nat) : St :=
   let ob := s.obj o
   let s1 : St :=
     if clear then { s with objs := s.objs.set o { ob with elems := [] } }
-    else { s with elog := s.elog ++ ob.elems.map ElEv.copy }
+    else { s with elog := s.elog ++ els.map ElEv.copy }
   let s2 := s1.unref o
-  let nb : RObj := { kind := .rbuf, count := 1, alive := true, ext := 0, elems := ob.elems, cap := newcap }
+  let nb : RObj := { kind := .rbuf, count := 1, alive := true, ext := 0, elems := els, cap := newcap }
   let s3 : St := { s2 with objs := s2.objs ++ [nb], ev := s2.ev ++ [{}] }
   { s3 with hnd := s3.hnd.set h (some s2.objs.length) }
+
+def St.relocate (s : St) (h o : Nat) (newcap : Nat) (clear : Bool) : St :=
+  s.relocateWith h o newcap clear (s.obj o).elems
 
 /-- `buf->_vptr->detach(buf, len * 8)` on the library heap buffer behind handle `h` (elements of 8 bytes):
     the state and whether a buffer was returned -/
@@ -224,6 +227,51 @@ def St.cascade (s : St) (nroot : Nat) : Nat → St
     match s.pendingOwner nroot with
     | none => s
     | some o => (s.drop (nroot + o)).cascade nroot fuel
+
+/-- `mpt_array_reserve(&h, len * 8, element traits)` on an array handle that is empty or names a library heap
+    buffer of the same element type: an empty handle gets a new buffer; a shared buffer is replaced by a new one
+    holding copies of the first `len` elements and is released; an unshared one is detached in place -/
+def St.reserve (s : St) (h len : Nat) : St × Bool :=
+  match s.hnd.getD h none with
+  | none =>
+    let nb : RObj := { kind := .rbuf, count := 1, alive := true, ext := 0, elems := [], cap := capOf (len * 8) }
+    ({ s with objs := s.objs ++ [nb], ev := s.ev ++ [{}], hnd := s.hnd.set h (some s.objs.length) }, true)
+  | some o =>
+    if (s.obj o).count > 1 then (s.relocateWith h o (capOf (len * 8)) false ((s.obj o).elems.take len), true)
+    else s.detach h len
+
+/-! ### `mpt::unique_array<T>` (mptcore/array.h): handles of BufferNoCopy heap buffers; `none` = the static
+     empty default buffer every fresh handle names -/
+
+/-- `unique_array<T>::reserve()`: take the buffer out of the handle, ask it for a private copy, put the result —
+    or, when the buffer refuses (shared and not empty: BufferNoCopy), the OLD buffer — back -/
+def St.uaPrivate (s : St) (a : Nat) : St × Bool :=
+  match s.hnd.getD a none with
+  | none =>
+    let nb : RObj := { kind := .rbuf, count := 1, alive := true, ext := 0, elems := [] }
+    ({ s with objs := s.objs ++ [nb], ev := s.ev ++ [{}], hnd := s.hnd.set a (some s.objs.length) }, true)
+  | some b =>
+    if (s.obj b).count > 1 then
+      if (s.obj b).elems.isEmpty then (s.relocateWith a b 0 false [], true) else (s, false)
+    else (s, true)
+
+/-- elements constructed / destroyed up to length `n` in the (private) buffer of handle `a` -/
+def St.uaSetLen (s : St) (a n : Nat) : St :=
+  match s.hnd.getD a none with
+  | none => s
+  | some b => { s with objs := s.objs.set b { (s.obj b) with elems := List.replicate n 0 } }
+
+def St.uaLen (s : St) (a : Nat) : Nat :=
+  match s.hnd.getD a none with | none => 0 | some b => (s.obj b).elems.length
+
+/-- `insert(length())` -/
+def St.uaInsert (s : St) (a : Nat) : St × Bool :=
+  let n := s.uaLen a
+  if (s.uaPrivate a).2 then ((s.uaPrivate a).1.uaSetLen a (n + 1), true) else ((s.uaPrivate a).1, false)
+
+/-- `resize(n)` -/
+def St.uaResize (s : St) (a n : Nat) : St × Bool :=
+  if (s.uaPrivate a).2 then ((s.uaPrivate a).1.uaSetLen a n, true) else ((s.uaPrivate a).1, false)
 
 /-- the kind of handle an object needs -/
 def St.isMetaObj (s : St) (o : Nat) : Bool := (s.obj o).kind.isMeta
